@@ -78,6 +78,7 @@ class Run:
         self.nt = 0
         self.stats = {}
         self.sets = {}
+        self.maxs = {}
         self.samples = []
         self.viols = []   # (key, detail)
         self.skips = []
@@ -97,6 +98,9 @@ class Run:
             elif tag == "@STAT":
                 k, _, v = rest.rpartition(" ")
                 self.stats[k] = self.stats.get(k, 0) + int(v)
+            elif tag == "@MAX":
+                k, _, v = rest.rpartition(" ")
+                self.maxs[k] = max(self.maxs.get(k, 0), int(v))
             elif tag == "@SET":
                 k, _, v = rest.rpartition(" ")
                 self.sets[k] = self.sets.get(k, 0) + int(v)
@@ -167,6 +171,7 @@ class Ctx:
         self.nt = 0
         self.stats = {}
         self.sets = {}
+        self.maxs = {}
         self.samples = []
         self.shards = []          # per-shard summary
         self.notes = []
@@ -323,6 +328,8 @@ class Ctx:
                 self.stats[k] = self.stats.get(k, 0) + v
             for k, v in run.sets.items():
                 self.sets[k] = self.sets.get(k, 0) + v
+            for k, v in run.maxs.items():
+                self.maxs[k] = max(self.maxs.get(k, 0), v)
             for s in run.samples:
                 if len(self.samples) < 12:
                     self.samples.append(s)
@@ -406,7 +413,7 @@ class Ctx:
     def finish(self, rule, assumptions, extra_coverage=None, exhaustive=None, min_nt=2):
         cov = {"evaluations": int(self.ev), "distinct_nontrivial": int(self.nt), "rule": rule,
                "samples": self.samples[:10] or ["(none)"],
-               "counters": self.stats, "distinct_sets": self.sets,
+               "counters": self.stats, "distinct_sets": self.sets, "maxima": self.maxs,
                "shards": self.shards[:200], "sanitizer_report_blocks": self.san_reports,
                "builds": {"total": getattr(self, "total_builds", 0), "from_cache": getattr(self, "cached_builds", 0),
                           "compile_cpu_s": getattr(self, "compile_secs", 0)},
